@@ -11,6 +11,7 @@ Worker mode:  python -m harness.c16 --worker"""
 from __future__ import annotations
 
 import json
+import signal
 import subprocess
 import sys
 from concurrent.futures import ThreadPoolExecutor
@@ -32,7 +33,8 @@ SCN = {
     "N-list-tr": ("N", 0, "anc", 0),       # Node.anc : List[Node], transitive with inverse desc (inference writes back into the field)
 }
 NELEM = 4
-LIST_OPS = ["Assign", "AssignSelf", "IAug", "Append", "Extend", "ExtendGen", "Insert", "SetItem", "SetSlice"]
+CASE_TIMEOUT_S = 5.0   # wall-clock guard per case (with Node's hash-count guard for the extend-self witness)
+LIST_OPS = ["Assign", "AssignSelf", "IAug", "Append", "Extend", "ExtendGen", "ExtendSelf", "Insert", "SetItem", "SetSlice", "SetSliceGen"]
 SET_OPS = ["Assign", "AssignList", "AssignSelf", "IAug", "Add", "Update", "Update2"]
 
 
@@ -101,6 +103,11 @@ def run_impl(descr) -> Dict[str, Any]:
     trace = []
     unrec = []
     guard = descr.get("guard")
+
+    def _alarm(*_a):
+        raise c15.HangGuard()
+    old_handler = signal.signal(signal.SIGALRM, _alarm)     # a write that never returns must not hang the check
+    signal.setitimer(signal.ITIMER_REAL, CASE_TIMEOUT_S)
     for op in descr["ops"]:
         k, args = op[0], op[1:]
         exc = 0
@@ -159,6 +166,8 @@ def run_impl(descr) -> Dict[str, Any]:
         trace.append([cur, exc])
         rec = recorded()
         unrec.append(sorted(set(cur) - rec))
+    signal.setitimer(signal.ITIMER_REAL, 0)
+    signal.signal(signal.SIGALRM, old_handler)
     fid = {(fam.classes[ci], nm): i for i, (ci, nm, _) in enumerate(fam.flds)}
     E = []
     for r in SymbolGraph().relations():
@@ -243,7 +252,11 @@ def op_term(op) -> str:
         return f"Insert ({args[0]})%Z {args[1]}"
     if k == "SetItem":
         return f"SetItem ({args[0]})%Z {args[1]}"
-    if k in ("SetSlice", "SetSliceGen"):
+    if k == "ExtendSelf":
+        return "ExtendSelf"
+    if k == "SetSliceGen":
+        return f"SetSliceIter ({args[0]})%Z ({args[1]})%Z {nl(args[2])}"
+    if k == "SetSlice":
         return f"SetSlice ({args[0]})%Z ({args[1]})%Z {nl(args[2])}"
     if k == "Add":
         return f"Add {args[0]}"
@@ -261,16 +274,11 @@ def kterm(scn) -> str:
 def model_term(d) -> str:
     if d.get("kind") == "ctor_alias":
         return f"ctor_alias_out {nl(d['init'])} {d['x']}"
-    if any(op[0] == "ExtendSelf" for op in d["ops"]):
-        return f"extend_self_out 2000 {nl(d['init'])}"
-    if d["ops"] and d["ops"][0][0] == "SetSliceGen":
-        o = d["ops"][0]
-        return f"slice_gen_out ({o[1]})%Z ({o[2]})%Z {nl(o[3])} {nl(d['init'])}"
     return f"model_out {kterm(d['scn'])} [{'; '.join(op_term(o) for o in d['ops'])}] {nl(d['init'])}"
 
 
 def spec_term(d) -> str:
-    if d.get("kind") == "ctor_alias" or any(op[0] == "ExtendSelf" for op in d["ops"]):
+    if d.get("kind") == "ctor_alias":
         return "SZ 0%Z"
     ops = [["Assign", d["init"]]] + d["ops"]
     return f"cspec_out {kterm(d['scn'])} [{'; '.join(op_term(o) for o in ops)}] []"
@@ -290,13 +298,15 @@ def gen_case(rng: core.Rng, scn: str) -> dict:
         x = rng.randint(0, NELEM - 1)
         if k in ("Assign", "AssignList", "IAug", "Extend", "ExtendGen", "Update"):
             ops.append([k, vs])
-        elif k == "AssignSelf":
+        elif k == "ExtendSelf" and sum(1 for o in ops if o[0] == "ExtendSelf") >= 2:
+            ops.append(["Append", x])          # keep the lists small: at most two doublings per history
+        elif k in ("AssignSelf", "ExtendSelf"):
             ops.append([k])
         elif k in ("Append", "Add"):
             ops.append([k, x])
         elif k in ("Insert", "SetItem"):
             ops.append([k, rng.randint(-4, 5), x])
-        elif k == "SetSlice":
+        elif k in ("SetSlice", "SetSliceGen"):
             ops.append([k, rng.randint(-4, 5), rng.randint(-4, 5), vs])
         elif k == "Update2":
             ops.append([k, [[rng.randint(0, NELEM - 1) for _ in range(rng.randint(0, 2))] for _ in range(rng.randint(0, 3))]])
@@ -340,12 +350,12 @@ def run(tier: str, seed: int, replay=None) -> int:
     ]
     rep.assume = [
         "the field is written by its owner with fresh arguments (lists, sets, generators) or with itself for assignment / += / |=; "
-        "K_extend_self (x.f.extend(x.f)), K_ctor_alias (another object's managed container given to a constructor) and K_slice_generator (x.f[i:j] = generator) are outside the fragment (known findings with _refuted theorems)",
-        "item assignment with an integer index or a step-1 slice whose value is a list (a generator as slice value is consumed by the recording hook before the builtin sees it: not generated)",
+        "K_ctor_alias (another object's managed container given to a constructor) is outside the fragment (known finding C16-d with a _refuted theorem)",
+        "item assignment with an integer index or a step-1 slice whose value is a list or a generator",
         "remove / pop / clear / del are not in the property's list of writes (the graph never retracts)",
     ]
-    rep.rule = ("random histories of 1-7 operations (assignment of a fresh list/set, self-assignment, += / |=, append, extend with a list or a generator, "
-                "insert, item assignment and slice assignment with indices in -4..5, add, update with 1 or 0-3 iterables) from random initial contents given to the constructor, "
+    rep.rule = ("random histories of 1-7 operations (assignment of a fresh list/set, self-assignment, += / |=, append, extend with a list, a generator or the field itself, "
+                "insert, item assignment and slice assignment (list or generator value) with indices in -4..5, add, update with 1 or 0-3 iterables) from random initial contents given to the constructor, "
                 "on Person.member_of, Company.members, Node.a, Node.b; elements drawn with repetition from 4 objects; "
                 "non-trivial = at least one operation changes the contents; distinct = distinct (scenario, initial contents, history)")
     ok_spec, log = core.coq_make(["Base/Sx.vo", "Onto/ContainerSpec.vo", "Onto/ClosureSpec.vo"])
@@ -402,20 +412,6 @@ def run(tier: str, seed: int, replay=None) -> int:
             if model_ok:
                 model_agrees = (mo == [im["p"], [x for x in mo[1]], mo[2]] and sorted(set(mo[1])) == im["rec_p"]
                                 and sorted(set(mo[2])) == im["rec_q"] and im["p"] == im["q"])
-        elif any(op[0] == "ExtendSelf" for op in d["ops"]):
-            rep.count(json.dumps(d), True)
-            if im["trace"] and im["trace"][-1][1] == 7:
-                problems.append("x.f.extend(x.f) does not terminate (stopped by the harness guard); Python doubles the list")
-            if model_ok:
-                model_agrees = (mo == -1) == bool(problems)
-        elif d["ops"] and d["ops"][0][0] == "SetSliceGen":
-            rep.count(json.dumps(d), True)
-            spec_tr = canon_trace([[c, e] for c, e in sp][1:], kind)      # Python: the same as a list value
-            impl_tr = canon_trace(im["trace"], kind)
-            if impl_tr != spec_tr:
-                problems.append(f"slice assignment of a generator: field {impl_tr} but plain Python gives {spec_tr}")
-            if model_ok:
-                model_agrees = (mo[0] == impl_tr[-1][0] and sorted(set(mo[1])) == im["recorded"])
         else:
             spec_tr = canon_trace([[c, e] for c, e in sp][1:], kind)
             impl_tr = canon_trace(im["trace"], kind)
@@ -426,6 +422,8 @@ def run(tier: str, seed: int, replay=None) -> int:
             for op in d["ops"]:
                 dist["op"][op[0]] = dist["op"].get(op[0], 0) + 1
             dist["indexerror"] += sum(1 for _, e in spec_tr if e == 1)
+            if any(e == 7 for _, e in impl_tr):
+                problems.append("a write operation did not terminate (stopped by the harness guard)")
             if impl_tr != spec_tr:
                 problems.append("field contents / IndexError after some operation differ from plain Python semantics")
             if any(im["unrecorded"]):
